@@ -51,3 +51,4 @@ CFG = dict(
                 "Schedules are sampled (yields and sleeps at the points where pooled buffers are outstanding, 16 processors), not enumerated: no absence claim.",
      level_note="Trusts the Go runtime, the race detector, rapid and the harness' reference encoder/decoder (refenc, self-checked against the repository's fixtures).",
      timeout_quick=900, timeout_thorough=3000)
+CFG["rule"] += " One cast in three runs its first concurrent phase COLD, before anything of it has run alone (first use of every lazily built table or cache entry happens under concurrency); time-zone names are drawn from the whole tz database; sym/sig/rsa workers carry key IDs, the same ID on different keys; results are also compared with the reference result under the worker's own key (mark BROKEN). TestSymHammer: every symmetric algorithm name, 4-16 goroutines with own keys, thousands of calls each, exact per-call reference oracle."
